@@ -181,6 +181,33 @@ CORPUS_SPECS = [
 ]
 
 
+# literal queries on the second corpus field: one per repaired defect
+CORPUS_QUERIES_1 = [
+    # F18e: method chain vs filter(...) when the axis is named by a domain axis identity
+    {"kind": "chain", "form": "methods", "fs": [["type", ["dimension_coordinate"]], ["axis", [["s", "ncdim%tt"]]]],
+     "todict": False, "am": "and", "pm": ["and"], "fam": "corpus-F18e"},
+    # F18b: inverse_filter(1) after filter(naxes, type)
+    {"kind": "ops", "fam": "corpus-F18b", "ops": [
+        ["filter", {"kind": "chain", "form": "filter", "fs": [["naxes", [["i", 1]]], ["type", ["auxiliary_coordinate"]]],
+                    "todict": False, "am": "and", "pm": ["and"]}], ["inverse", 1]]},
+    # F18c: inverse_filter(1) with no filter applied
+    {"kind": "ops", "fam": "corpus-F18c", "ops": [["inverse", 1]]},
+    # F18f: cell_methods with an identity that matches nothing
+    {"kind": "plural", "method": "cell_methods", "ids": [["s", "nothing"]], "fs": [], "todict": False, "fam": "corpus-F18f"},
+    {"kind": "accessor", "method": "cell_method", "ids": [["s", "nothing"]], "fs": [], "how": "key", "default": "none",
+     "fam": "corpus-F18f"},
+    # F18h: inverse_filter(2) after filter, inverse_filter(), filter
+    {"kind": "ops", "fam": "corpus-F18h", "ops": [
+        ["filter", {"kind": "chain", "form": "methods", "fs": [["type", ["domain_axis"]]], "todict": False, "am": "and", "pm": ["and"]}],
+        ["inverse", None],
+        ["filter", {"kind": "chain", "form": "methods", "fs": [["naxes", [["i", 1]]]], "todict": False, "am": "and", "pm": ["and"]}],
+        ["inverse", 2]]},
+    # F18d: domain_axes(filter_by_identity=..., filter_by_size=...)
+    {"kind": "plural", "method": "domain_axes", "ids": [["s", "ncdim%tt"]], "fs": [["size", [["i", 3]]]], "ids_kw": "first",
+     "todict": False, "fam": "domain_axes-kw", "oracle_only": True},
+]
+
+
 # ================================================================== values
 def vs(s):
     return ["s", s]
@@ -972,6 +999,8 @@ def classify(R, q, res, exp):
     if kind == "ops":
         if res.get("err") == "IndexErr":
             return "inverse-filter-depth-on-unfiltered-raises"
+        if res.get("err") == "KeyErr":
+            return "inverse-filter-depth-after-inverse-raises"
         return "inverse-or-unfilter-not-relative-to-previous-filter"
     if fam == "domain_axes-kw":
         return "domain_axes-identity-keyword-order-crash" if "err" in res else "domain_axes-identity-keyword"
@@ -1030,6 +1059,9 @@ def judge(chk, R, q, res, exp, spec, stats):
             elif res["keys"] != e["keys"]:
                 bad = (e, "inverse_filter/unfilter is not the complement / the earlier collection")
             stats["ops_judged"] += 1
+        if bad is None and e is None and "err" in res:
+            # no documented expectation for the members, but a history of valid calls must not raise
+            bad = ({}, f"a history of valid filter/inverse_filter/unfilter calls raised {res['err']}: {res.get('msg')}")
         if bad is None and "keys" in res:
             if res["rootkeys"] != sorted(R.keys):
                 bad = ({"rootkeys": sorted(R.keys)}, "unfilter() no longer returns the whole collection")
@@ -1099,6 +1131,8 @@ def run(chk, model_ok):
         if not all(ok_text(s) for c in R.cs for s in c["identities"] + list(c["props"].values()) + list(c["props"])):
             continue
         queries[i] = queries_for(rng, R, tier, bool(specs[i].get("domain")))
+        if i == 1:
+            queries[i] = [dict(q) for q in CORPUS_QUERIES_1] + queries[i]
     rows2 = run_phase(chk, specs, queries)
 
     stats = {"ops_judged": 0}
